@@ -64,20 +64,73 @@ def xmlHandler : PyExc → Raised
   | .base n => .propagate n
 
 /-- a chunk handed out by `source.read()` -/
-inductive XmlRead where
-  | chunk (items : List (Item XmlCb))   -- bytes, or a `str` that encodes to UTF-8: given to `Parse`
+inductive XmlReadG (cb : Type) where
+  | chunk (items : List (Item cb))      -- bytes, or a `str` that encodes to UTF-8: given to `Parse`
   | unencodable                         -- a `str` holding a lone surrogate: `data.encode('utf-8')` raises
   | fail (e : PyExc)
   deriving Repr
 
-def XmlRead.toRead : XmlRead → Read XmlCb
+abbrev XmlRead := XmlReadG XmlCb
+
+def XmlReadG.toRead {cb : Type} : XmlReadG cb → Read cb
   | .chunk l => .items l
   | .unencodable => .fail unicodeEncodeError
   | .fail e => .fail e
 
 /-- iterating `XMLParser(source)` -/
 def xmlParse (reads : List XmlRead) (close : List (Item XmlCb)) : Stream × Option Raised :=
-  parse xmlLayer xmlHandler () (reads.map XmlRead.toRead) close
+  parse xmlLayer xmlHandler () (reads.map XmlReadG.toRead) close
+
+/-! ### with positions: `_enqueue`
+
+Every handler stamps `(CurrentLineNumber, CurrentColumnNumber)`; for TEXT Expat reports the *end*
+of the text, which `_enqueue` moves back: by the length for single-line text, to the first line
+(offset unknown, -1) for text containing a line feed. -/
+
+def pyLineBreak (c : Char) : Bool :=
+  c = '\n' || c = '\r' || c = '\x0b' || c = '\x0c' || c = '\x1c' || c = '\x1d' || c = '\x1e' ||
+  c = '\x85' || c = '\u2028' || c = '\u2029'
+
+/-- `len(data.splitlines())`: `inLine` — characters seen since the last line end; `afterCR` — the
+    previous character was a carriage return (a line feed right after it belongs to the same line end) -/
+def lineCountGo : Bool → Bool → Str → Nat
+  | inLine, _, [] => if inLine then 1 else 0
+  | _, afterCR, c :: cs =>
+    if c = '\n' && afterCR then lineCountGo false false cs
+    else if c = '\r' then 1 + lineCountGo false true cs
+    else if pyLineBreak c then 1 + lineCountGo false false cs
+    else lineCountGo true false cs
+
+def lineCount (s : Str) : Nat := lineCountGo false false s
+
+/-- the position `_enqueue` gives a TEXT event reported at `p` -/
+def textPos (data : Str) (p : Pos) : Pos :=
+  if data.any (· = '\n') then (p.1 - (lineCount data : Int) + 1, -1)
+  else (p.1, p.2 - (data.length : Int))
+
+def stampXml (p : Pos) (e : Event) : PEvent :=
+  match e with
+  | .text s _ => (e, textPos s p)
+  | _ => (e, p)
+
+def xmlStepP (_ : Unit) (c : XmlCb × Pos) : Except PyExc (Unit × PStream) :=
+  match xmlStep () c.1 with
+  | .error e => .error e
+  | .ok (_, evs) => .ok ((), evs.map (stampXml c.2))
+
+def xmlLayerP : LayerG Unit (XmlCb × Pos) PEvent where
+  step := xmlStepP
+  finish := fun _ => []
+
+abbrev XmlReadP := XmlReadG (XmlCb × Pos)
+
+def xmlParseP (reads : List XmlReadP) (close : List (Item (XmlCb × Pos))) : PStream × Option Raised :=
+  parseP xmlLayerP xmlHandler () (reads.map XmlReadG.toRead) close
+
+def XmlReadG.map {α β : Type} (g : α → β) : XmlReadG α → XmlReadG β
+  | .chunk l => .chunk (l.map (Item.map g))
+  | .unencodable => .unencodable
+  | .fail e => .fail e
 
 /-! ### documents as trees, and the callbacks their traversal makes -/
 
